@@ -8,15 +8,23 @@ from .values import Unsupported
 
 
 class SourceIndex:
+    # property lemmas (vf/proplemmas/*.py) are small harness functions under /verif that only CALL the real functions; they
+    # are verified like any other function, every callee by its contract
+    VERIF_ROOT = os.path.dirname(os.path.dirname(os.path.dirname(os.path.abspath(__file__))))
+
     def __init__(self, repo="/repo"):
         self.repo = repo
         self.mods = {}
 
+    def root_of(self, parts):
+        return self.VERIF_ROOT if parts[:2] == ["vf", "proplemmas"] else self.repo
+
     def module_ast(self, modname):
         if modname not in self.mods:
-            path = os.path.join(self.repo, *modname.split(".")) + ".py"
+            root = self.root_of(modname.split("."))
+            path = os.path.join(root, *modname.split(".")) + ".py"
             if not os.path.exists(path):
-                path = os.path.join(self.repo, *modname.split("."), "__init__.py")
+                path = os.path.join(root, *modname.split("."), "__init__.py")
             with open(path) as fh:
                 src = fh.read()
             self.mods[modname] = (ast.parse(src), src, path)
@@ -27,7 +35,7 @@ class SourceIndex:
         parts = qualname.split(".")
         for k in range(len(parts) - 1, 0, -1):
             modname = ".".join(parts[:k])
-            path = os.path.join(self.repo, *parts[:k])
+            path = os.path.join(self.root_of(parts), *parts[:k])
             if os.path.exists(path + ".py") or os.path.exists(os.path.join(path, "__init__.py")):
                 rest = parts[k:]
                 if len(rest) == 1:
